@@ -33,6 +33,13 @@ DEEP_MSGS = 10                             # thorough: the exhaustive check once
 KNOWN_VIOLATED = (("NoSubscriptionCrash", "INVARIANT"), ("NoIndexCrash", "INVARIANT"), ("NoAttributeCrash", "INVARIANT"),
                   ("AllOnlyWhileRecording", "INVARIANT"), ("NoDebris", "INVARIANT"), ("NoPausedWhileIdle", "PROPERTY"))
 DEPTH = 40
+# documented deviations of data_logger.py from a robust control protocol (LoggerCtl.tla models them, marked DEVIATION): exceptions
+# that are not DataLoggerError leave run()
+OBSERVED = {
+    "CTL/Crash/InvalidSubscription:START": "a START after a failed START: the failed one left the client subscribed to ALL; unsubscribe(ctrl) raises InvalidSubscription (not a DataLoggerError) and run() ends",
+    "CTL/Crash/IndexError:ADDC": "ADD_DATA_COLLECTION with num_data_sets = 7 (six slots): IndexError leaves run()",
+    "CTL/Crash/AttributeError:META_UPD": "METADATA_UPDATE whose JSON is not an object: AttributeError leaves run()",
+}
 JOBS = 14
 
 
